@@ -117,6 +117,12 @@ fn gen_case(seed: u64, i: u64, corpus: &Corpus) -> (String, String, Project, Str
     return ("regression".into(), n.clone(), p.with_std(), "Main".into());
   }
   let pseed = seed.wrapping_mul(1_000_003).wrapping_add(i);
+  if i % 9 == 4 {
+    // operator tables over boundary values, literal or hidden operands (constant folding must
+    // compute what the target computes)
+    let p = vcore::diffcheck::operator_table(&mut rng);
+    return ("operator-table".into(), format!("table {i}"), p.with_std(), "ops.Table".into());
+  }
   if i % 3 == 0 {
     // counted-loop family aimed at the loop optimizer; wrap-around is deterministic at MIR level
     let g = vcore::loopgen::generate(pseed, i % 2 == 0);
